@@ -7,7 +7,19 @@ def R(pkg, run, quick, thorough, **kw):
 
 LAB = "./internal/zzverif/lab"
 
+H2 = "./internal/martian/h2"
+
 CHECKS = {
+    "C09": {
+        "runs": [
+            R(H2, "^TestC09Flow", {"checks": 400, "timeout": 900}, {"checks": 2000, "shards": 16, "timeout": 3000}, race=True),
+        ],
+    },
+    "C10": {
+        "runs": [
+            R(H2, "^TestC10Streams", {"checks": 400, "timeout": 900}, {"checks": 2000, "shards": 16, "timeout": 3000}, race=True),
+        ],
+    },
     "C07": {
         "runs": [
             R(LAB, "^TestC07MITM", {"checks": 200, "timeout": 900}, {"checks": 1200, "shards": 12, "timeout": 3000}, race=True),
@@ -94,6 +106,11 @@ CHECKS = {
 LEVELS = {"C12": "fault_enumeration"}  # default: exploration
 
 RULES = {
+    "C09": "in-module harness around h2.Config.Proxy: the client side is a pipe carrying a raw http2.Framer, the server side a TLS listener (ALPN h2) speaking raw frames; reader goroutines keep ledgers, one scheduler executes the generated schedule step by step (the harness owns the order of all endpoint actions). rapid draws initial SETTINGS of both sides (initial windows 1000..70000, max frame 16384..65536) and 3-40 steps over 1-4 streams in both directions: DATA (0, 1, 100, 1000, 16383-16385, 30000, 65535 octets; optional padding 0..255; END_STREAM), HEADERS (with CONTINUATION, priority, padding), WINDOW_UPDATE on stream / connection (1..200000), SETTINGS changing INITIAL_WINDOW_SIZE up and down (down while the relay holds queued DATA), MAX_FRAME_SIZE and HEADER_TABLE_SIZE, RST_STREAM, PING, PRIORITY, PUSH_PROMISE, PING round trips. "
+           "Senders are conforming (they wait for credit, which the relay must return). Oracle: receiver ledger per stream and connection - flow-controlled octets received never exceed initial window in force + own WINDOW_UPDATEs; a lowered window / frame size becomes the strict bound when a barrier marker (HEADERS on a fresh stream sent by the other endpoint after it saw the forwarded SETTINGS) arrives, until then max(old,new); no frame larger than MAX_FRAME_SIZE in force; sender ledger - at the end the WINDOW_UPDATE increments returned on every stream and on the connection equal the flow-controlled octets sent (payload + padding + pad length); a conforming sender is never starved. "
+           "Non-trivial = padding, a SETTINGS change, CONTINUATION, >= 2 interleaved streams or an initial window below 65535. Distinct = distinct schedules.",
+    "C10": "same harness with larger windows. Oracle: each endpoint decodes what it receives with its own HPACK decoder; per stream the logical sequence [header list | coalesced DATA bytes (checksum) | RST code | PUSH_PROMISE(id, list)] with the position of END_STREAM must equal what the other endpoint sent; HEADER_TABLE_SIZE reductions must be announced by a dynamic table size update no later than the barrier marker; SETTINGS count, PING data/acks and GOAWAY are relayed; the client preface is written in one or two segments; after all windows are opened (stream windows first, connection last) everything sent must have arrived within 6 s (nothing stranded). "
+           "Non-trivial as for C09 plus trailers. Distinct = distinct schedules.",
     "C07": "rapid draws a MITM configuration {certificate cache capacity 1/2/8/1024, leaf validity 1 h or 1 s (cache TTL 1 s or 1 h), mitm-domains none or include/exclude list, insecure on/off} and a batch of 1-32 concurrent CONNECTs over 1-40 distinct DNS names plus mixed-case, IDN, IPv4 and bracketed IPv6 authorities; per connection: SNI same / absent / a different name, origin certificate valid / expired / wrong name / unknown issuer, optional request inside the session (optionally with X-Forwarded-Proto); the batch may be repeated (after the 1 s validity has passed). "
            "Oracle: the client verifies the presented chain itself (x509 against the configured CA, for the SNI name or else the CONNECT host, IP literals as IP SANs, valid at the handshake instant); a request inside the session must reach the TLS origin (whose connection log starts with a TLS record) when the origin verifies or insecure mode is on, otherwise the origin must receive no request and the client a 502 with X-Forwarder-Error; hosts excluded by mitm-domains must present the origin's own certificate. "
            "Non-trivial = more distinct hosts than cache capacity, SNI differing from the CONNECT host, an IP literal, or a bad origin certificate with an inner request. Distinct = distinct (configuration, batch).",
@@ -151,6 +168,12 @@ RULES = {
 }
 
 ASSUMPTIONS = {
+    "C09": ["the h2 relay is not reachable through forwarder's public configuration; it is driven in-module through h2.Config.Proxy exactly as handleMITM would",
+            "endpoint actions are totally ordered by the scheduler; only the relay's internal goroutine interleaving is left to the Go scheduler",
+            "DATA larger than the receiver's frame size is never sent by the conforming senders, so the relay's own DATA splitting is exercised only through SETTINGS races"],
+    "C10": ["PRIORITY frames are generated but their delivery is not asserted",
+            "continued PUSH_PROMISE is a recorded known finding and excluded by construction",
+            "same in-module harness as C09"],
     "C07": ["expiry is exercised with a 1 s validity (the default 24 h / 6 h path is the same code, not waited for)",
             "DNS names are mapped to the scripted TLS origins by connect-to rules keyed on the port",
             "HTTP/2 inside MITM is not reachable through forwarder's configuration"],
@@ -202,6 +225,16 @@ ASSUMPTIONS = {
 # MANIFEST texts
 
 META = {
+    "C09": {
+        "technique": "model-based property testing (rapid) of the h2 relay with harness-owned frame schedules; invariant oracle = receiver-side credit ledger with SETTINGS barriers and sender-side credit-return ledger",
+        "text": "Generated frame schedules with small windows force blocking, unblocking and SETTINGS changes while data is queued; every DATA arrival is checked against the credit granted, every frame against the frame-size limit, and at quiescence all credit must have been returned. 400 schedules quick, 32000 under -race thorough. 7 flow-control mutants verified.",
+        "note": "One known finding (frames queued before MAX_FRAME_SIZE is lowered) is excluded by construction and reported as KNOWN-FINDING.",
+    },
+    "C10": {
+        "technique": "model-based property testing (rapid) of the h2 relay: per-stream logical event sequences compared end to end with independent HPACK state at both raw-frame endpoints; bounded delivery after windows are opened",
+        "text": "Generated multi-stream schedules with header blocks larger than the frame size, CONTINUATION splits, table-size changes, trailers, resets, pushes and delayed window grants; any change of header lists, data, END_STREAM position, order or delivery is detected. 400 schedules quick, 32000 under -race thorough.",
+        "note": "One known finding (continued PUSH_PROMISE kills the direction) excluded by construction.",
+    },
     "C07": {
         "technique": "property-based testing (rapid): generated concurrent CONNECT batches against MITM proxies with tiny caches and short validities; oracle = independent x509 verification at the client plus request/no-request observation at scripted TLS origins with good and bad certificates",
         "text": "Every presented chain is verified by the harness for the name the client asked for; cache eviction, expiry with a long TTL (re-validation), SNI precedence, IP SANs, the mitm-domains filter and origin verification are all on the path (7 mutants verified). 200 batches quick, 14400 under -race thorough.",
